@@ -53,6 +53,34 @@ def params_origin_ok(ctx, body, term):
     return False
 
 
+def resolve_params_observer(ctx, body, term, depth=0):
+    """`Par::params(x)` is the params field of x (every impl of params() returns self.params - decided by C12-OBSERVE):
+    rewritten to the field of a parameter, or to the params component of a pipeline struct built in place"""
+    if term is None or depth > 4 or term[0] != 'call' or not term_callee(term).endswith('::params') or len(term[2]) != 1:
+        return term
+    if not (term_callee(term).startswith(PAR_TRAIT + '::') or term_callee(term).startswith('par::')):
+        return term
+    x = term[2][0]
+    while x is not None and x[0] in ('ref', 'mut') and isinstance(x[1], tuple):
+        x = x[1]
+    F = ctx.facts
+    if x is not None and x[0] == 'param':
+        for l in body.arg_locals():
+            if (body.local_name(l) or '_%d' % l) == x[1]:
+                adt = adt_of_local(body, l)
+                if adt and adt in F.adts:
+                    try:
+                        return ('field', x, None, F.field_index(adt, 'params'))
+                    except KeyError:
+                        return term
+    if x is not None and x[0] == 'variant' and x[1] in F.adts:
+        try:
+            return resolve_params_observer(ctx, body, x[3][F.field_index(x[1], 'params')], depth + 1)
+        except (KeyError, IndexError):
+            return term
+    return term
+
+
 def self_params_term(ctx, body):
     """the term `self.params` inside a method of a Par struct"""
     adt = None
@@ -384,7 +412,7 @@ def s3(ctx):
             for i in idx:
                 n += 1
                 term = c['args'][i]
-                ok = all(params_origin_ok(ctx, b, a) for a in alternatives(term))
+                ok = all(params_origin_ok(ctx, b, resolve_params_observer(ctx, b, a)) for a in alternatives(term))
                 callee = res(t)
                 key = 'S3/%s/%s' % (key_of(b), callee.split('::')[-1])
                 out.inst(key, ok, t_str(term)[:120], sample={'in': key_of(b), 'callee': callee, 'params_arg': t_str(term)[:160]})
@@ -443,7 +471,7 @@ def c12_store(ctx):
         for alt in alternatives(r.ret):
             if alt[0] == 'variant' and ('adt:' + alt[1]) in S.par_impl_types:
                 idx = F.field_index(alt[1], 'params')
-                if alt[3][idx] != sp[0]:
+                if resolve_params_observer(ctx, b, alt[3][idx]) != sp[0]:
                     probs.append('returns a %s whose params is %s, not self.params' % (alt[1].split('::')[-1], t_str(alt[3][idx])[:120]))
             elif alt[0] == 'call' and term_callee(alt).startswith(PAR_TRAIT + '::') and alt[2]:
                 pass   # delegated to another transformation (decided there)
@@ -834,6 +862,17 @@ def c11_pull(ctx):
                 n += 1
                 key = 'C11-PULL/%s/%s' % (key_of(b), method(t))
                 one = one_ctx or implies_one(c['pc'], cs)
+                if not one:
+                    # the guard may sit in a helper (`match Pull::new(chunk_size) { OneByOne => .., InChunksOf(c) => .. }`): decided by
+                    # re-executing the task with chunk_size != 1 - the element-wise pull must then be unreachable
+                    def atoms(d, cs=cs):
+                        if d == cs:
+                            return 2
+                        if d is not None and d[0] == 'bin' and d[1] in ('Eq', 'Ne') and ((d[2] == cs and d[3] == ('const', 1)) or (d[3] == cs and d[2] == ('const', 1))):
+                            return d[1] == 'Ne'
+                        return None
+                    rr = ctx.opa.run(tn, seeds={'atoms': atoms, 'key': ('C11-PULL-ne1', tn)})
+                    one = bb not in rr.visited and bb in r.visited
                 out.inst(key, one, 'element-wise pull under chunk_size == 1' if one else 'element-wise pull not guarded by chunk_size == 1',
                          sample={'task': key_of(b), 'pull': method(t), 'guard': 'chunk_size == 1' if one else None})
                 if not one:
